@@ -13,7 +13,7 @@ from vlib import common as C
 from vlib.framework import Corr
 
 META = {
-    "drivers": ["affcheck"],
+    "drivers": ["affcheck", "impcheck"],
     "rule": "case = (operation, N, scalar, stream, matrices, vector, build config); non-trivial when no matrix of the case is the identity "
             "or zero and the vector is not zero (constructor cases: arguments not all 0/1)",
     "trusted_base": ["standard model of IEEE-754 arithmetic behind the bound gamma_c*|A1|...|Ak||v| (+ underflow slack), c = (#products on the way)*(N+1)",
@@ -420,9 +420,20 @@ def evaluate(ctx, cases, cfgs, sample_rate):
 
 
 def run(ctx):
-    corr = evaluate(ctx, gen(ctx), ["dbg", "rel", "isa"], 0.15 if ctx.quick else 0.02)
+    # the tie through translation (DESIGN.md §11.6): matrix product, identity, affine * vector, translation, scaling as written
+    # are the terms `Covfie.RImp.*_translated` are about; if one of them changed, this run takes the thorough tier's inputs
+    from harness import translib as T
+    tie = T.Tie(ctx, list(T.RIMP))
+    if tie.changed() and ctx.quick:
+        class Deep:
+            quick, seed, tier, work, replay, prop = False, ctx.seed, ctx.tier, ctx.work, ctx.replay, ctx.prop
+        cases = gen(Deep)
+    else:
+        cases = gen(ctx)
+    corr = evaluate(ctx, cases, ["dbg", "rel", "isa"], 0.15 if ctx.quick else 0.02)
     from harness import ldlib
     ldlib.part(ctx, corr, ["affine"], "affine_layer")      # long double coordinates
+    tie.merge(corr)
     return corr
 
 
